@@ -109,7 +109,7 @@ def strategy(tier):
 
 def budget(tier):
     if tier == 'quick':
-        return {'max_examples': 1280, 'shards': 16, 'time_budget': 100}
+        return {'max_examples': 3840, 'shards': 16, 'time_budget': 100}
     return {'max_examples': 64000, 'shards': 16, 'time_budget': 1500}
 
 
@@ -236,3 +236,68 @@ def check(case):
                       for l in case['labels']))
     return ok(labels, all_hit and special,
               sig=case_sig([kind, params]), counts=counts)
+
+
+def tilt_cases(tier='quick'):
+    """Deterministic part: every axisymmetric macrobody kind with its axis
+    tilted by a small, visible angle from each of the six coordinate
+    directions (the converter has "almost aligned" branches for such axes;
+    random orientations meet them rarely)."""
+    angles = [1e-3, 3e-3, 1e-2, 3e-2] if tier == 'quick' else \
+        [1e-4, 3e-4, 1e-3, 3e-3, 1e-2, 2e-2, 3e-2, 4.5e-2]
+    v = np.array([0.3, -0.2, 0.1])
+    n = 0
+    for ax in range(3):
+        for sgn in (1.0, -1.0):
+            e = np.zeros(3)
+            e[ax] = sgn
+            others = [q for q in range(3) if q != ax]
+            for ang in angles:
+                for k_dir in range(3):
+                    p_ = np.zeros(3)
+                    if k_dir < 2:
+                        p_[others[k_dir]] = 1.0
+                    else:
+                        p_[others[0]], p_[others[1]] = 0.6, -0.8
+                    a = e + np.tan(ang) * p_
+                    a = a / np.linalg.norm(a)
+                    b1 = np.cross(a, p_ if k_dir == 2 else
+                                  np.roll(e, 1) * sgn)
+                    if np.linalg.norm(b1) < 0.1:
+                        b1 = np.cross(a, np.roll(e, 2))
+                    b1 = b1 / np.linalg.norm(b1)
+                    bodies = [
+                        ('rcc', 'rcc', list(v) + list(2.0 * a) + [0.7]),
+                        ('trc', 'trc', list(v) + list(2.0 * a) + [0.9, 0.4]),
+                        ('ell+', 'ell', list(v + a) + list(v - a) + [1.6]),
+                        ('ell-', 'ell', list(v) + list(2.0 * a) + [-0.6]),
+                        ('rec10', 'rec', list(v) + list(2.0 * a)
+                         + list(1.0 * b1) + [0.5]),
+                        ('rhp9', 'rhp', list(v) + list(2.0 * a)
+                         + list(0.8 * b1)),
+                    ]
+                    for gen_kind, k, params in bodies:
+                        n += 1
+                        yield {'gen': gen_kind, 'kind': k,
+                               'params': [float(t) for t in params],
+                               'sid': 5, 'tier': tier,
+                               'labels': ['rot:small', 'tilt-enumeration',
+                                          'tilt:%g' % ang],
+                               'pseed': 1000 + n}
+
+
+def extra(tier, seed, stats):
+    found = {}
+    n = 0
+    for case in tilt_cases(tier):
+        out = check(case)
+        n += 1
+        stats.labels.update(['tilt-enumeration', 'kind:' + case['gen']])
+        if out.kind == 'violation':
+            found.setdefault(out.bucket + ':tilt-enumeration',
+                             (case, out.detail))
+        elif out.nontrivial:
+            stats.counts['extra_nontrivial'] += 1
+    stats.counts['extra_evaluations'] += n
+    stats.counts['tilt_enumeration_cases'] = n
+    return found
